@@ -139,7 +139,9 @@ func sanitizersForAttributeValue(c context) ([]string, error) {
 		// to prevent the injection of any new path segments or URL components. Moreover, they must
 		// not contain any ".." dot-segments.
 		ret = append(ret, queryEscapeURLFuncName, validateTrustedResourceURLSubstitutionFuncName)
-	case strings.ContainsAny(urlAttrValPrefix, "#?"):
+	case strings.ContainsAny(html.UnescapeString(urlAttrValPrefix), "#?"):
+		// The prefix is looked at the way the browser sees it: '?' and '#' may be written as character
+		// references (e.g. "&quest;", "&#35;").
 		// For URLs, we only escape in the query or fragment part to prevent the injection of new query
 		// parameters or fragments.
 		ret = append(ret, queryEscapeURLFuncName)
